@@ -233,7 +233,7 @@ pub fn run(run: &mut Run) {
     umh::install();
     run.assume("cli/sti/hlt executed in ring 3 raise #GP and are emulated on an emulated IF; rflags::read_raw shows that IF through hook H2 (pushfq cannot be trapped)");
     run.assume("'no interrupt window' is decided as adjacency of sti and hlt in the executed instruction stream, not by injecting interrupts");
-    let n = run.cases(120_000, 6_000_000);
+    let n = run.cases(240_000, 9_000_000);
     run.sub(
         "nesting",
         "initial IF in {0,1} x other RFLAGS bits shown by the overlay (IOPL, DF, OF, NT, RF, VM, AC, VIF, VIP, ID, unmodelled bits) x programs from Block := Stmt*; Stmt := Nested(Block) | Probe | BalancedToggle | Value(u64) | EnableDisable (depth <= 6, <= 40 nodes) interpreted with real nested closures around without_interrupts; oracle: closure runs exactly once with IF=0, result returned, IF after = IF before, trap trace = [cli] before and [sti] after iff IF was 1 at entry, enable/disable = exactly one sti/cli and no other emulated register changes, are_enabled = emulated IF; non-trivial = nesting depth >= 2 with IF=0 at entry of some without_interrupts (the branch user space can never reach natively); distinct by (initial IF, statement shape)",
